@@ -295,6 +295,29 @@ def run(ctx: Ctx):
         for p in probs:
             ctx.fail(cons, f.loc(), f"{f.qualname}: {p}")
             break
+        # answers of commands without python implementation: attributes are not encoded
+        cons_u = f"{f.qualname}:attributes-on-untyped-answer"
+        ctx.inst(cons_u)
+        handles_untyped = any(isinstance(x, ast.Call) and (A.call_name(x).endswith(".append_avp")
+                                                           or A.call_name(x) in ("Avp.new", "avp.Avp.new"))
+                              for x in ast.walk(f.node))
+        base_mod = model.module("message._base")
+        generic = [base_mod.classes.get("Message"), base_mod.classes.get("UndefinedMessage")]
+        encodes_attrs = False
+        for gc_ in generic:
+            if gc_ is None:
+                continue
+            for mname in ("avps", "as_bytes"):
+                m_ = gc_.methods.get(mname)
+                if m_ is not None and "generate_avps_from_defs" in ast.unparse(m_.node):
+                    encodes_attrs = True
+        if not handles_untyped and not encodes_attrs:
+            ctx.fail(cons_u, f.loc(), f"{f.qualname} fills the answer through attributes "
+                     f"(origin_host, origin_realm, session_id, proxy_info - and its callers result_code, "
+                     f"error_message). to_answer() returns the generic Message / UndefinedMessage for "
+                     f"commands without python implementation, and those classes encode only their AVP "
+                     f"list, never attributes: such answers leave as a bare 20-byte header without "
+                     f"Origin-Host, Origin-Realm, Session-Id, Proxy-Info or Result-Code")
 
     # ---------------- R5 the sent answer is generated per request -------------------------------------
     from . import c07
